@@ -77,6 +77,15 @@ func (x *run) prepareHost(rs *repState, variant int) error {
 			return err
 		}
 	}
+	// the remotes git-bug syncs with are the project's remotes: they hold the project's branch and
+	// tags too - one tag this clone has not fetched yet, and one that upstream moved since
+	if variant == 0 {
+		for _, h := range x.w.Hubs {
+			if _, err := gitCmd(d, "push", "-q", h.Dir, "feature:refs/heads/main", "feature:refs/tags/remote-only", "feature:refs/tags/v1.0"); err != nil {
+				return err
+			}
+		}
+	}
 	return nil
 }
 
